@@ -2,6 +2,8 @@
    Machine: RemoteWatch.step (client.watchAdapter with recvMessage's retry loop) against the server's log; the
    server side of an accepted resume is C12's theorem (exactly the entries after the bookmark). *)
 From Verif Require Import RemoteWatch RemoteWatchProofs.
+From Coq Require Import ZArith.
+From Verif Require Ring RingProofs WatchProofs RemoteRing RemoteRingProofs.
 
 (* for every selector, window test, initial part, start position, retry setting and every schedule of commits,
    deliveries, stream failures, failed re-dials, successful re-dials (on the same or a foreign incarnation), giving up
@@ -41,3 +43,45 @@ Theorem C13_resume_at_last_bookmark : forall sel valid init p0 retries s b,
   c_out (step sel valid init p0 retries s SRedialOK) = c_out s.
 Proof. exact resume_at_last_bookmark. Qed.
 Print Assumptions C13_resume_at_last_bookmark.
+
+(* ---- the two ends composed: the server side is the ring of C02/C12 itself (RemoteRing.v), no parameter left --------
+   for every buffer configuration, prior history, start position and schedule of commits, server-side fetches,
+   deliveries, losses of everything in flight, failed / accepted / refused re-dials and giving up: the user has been
+   handed exactly the log from the start position on (no gap, no duplicate, in order), Errored exactly when the
+   adapter returned, and lastBookmark is the position of the last event handed over *)
+Theorem C13_over_ring_exact : forall initcap maxcap gap pre p0 l0 retries sched,
+  RingProofs.wf_cfg initcap maxcap gap ->
+  let c0 := RingProofs.publish_all pre (Ring.coll_init initcap maxcap gap) in
+  (0 <= p0 <= Ring.c_wpos c0)%Z -> (l0 = None \/ l0 = Some (p0 - 1)%Z) ->
+  let s := RemoteRing.rrun retries (RemoteRing.rstart c0 pre p0 l0) sched in
+  exists k, (0 <= k)%Z /\ (p0 + k <= Z.of_nat (length (RemoteRing.r_log s)))%Z /\
+    RemoteRing.r_out s = RingProofs.log_slice (RemoteRing.r_log s) p0 (p0 + k) /\
+    (RemoteRing.r_err s = true <-> RemoteRing.r_mode s = RemoteRing.RDead) /\
+    ((k > 0)%Z -> RemoteRing.r_last s = Some (p0 + k - 1)%Z).
+Proof. exact RemoteRingProofs.remote_over_ring_exact. Qed.
+Print Assumptions C13_over_ring_exact.
+
+Theorem C13_over_ring_complete : forall initcap maxcap gap pre p0 l0 retries sched,
+  RingProofs.wf_cfg initcap maxcap gap ->
+  let c0 := RingProofs.publish_all pre (Ring.coll_init initcap maxcap gap) in
+  (0 <= p0 <= Ring.c_wpos c0)%Z -> (l0 = None \/ l0 = Some (p0 - 1)%Z) ->
+  let s := RemoteRing.rrun retries (RemoteRing.rstart c0 pre p0 l0) sched in
+  forall spos, RemoteRing.r_mode s = RemoteRing.RStream spos [] false ->
+  Ring.fetch_all (RemoteRing.r_coll s) spos = Ring.FBlocked ->
+  RemoteRing.r_out s = RingProofs.log_slice (RemoteRing.r_log s) p0 (Z.of_nat (length (RemoteRing.r_log s))).
+Proof. exact RemoteRingProofs.remote_over_ring_complete. Qed.
+Print Assumptions C13_over_ring_complete.
+
+(* Errored only for a stated cause, in terms of the ring itself: in particular a resume is refused only when the
+   bookmark is more than initcap - gap behind the head *)
+Theorem C13_over_ring_death_cause : forall initcap p0 retries s c,
+  RemoteRingProofs.RRInv initcap p0 s -> RemoteRing.r_mode s <> RemoteRing.RDead ->
+  RemoteRing.r_mode (RemoteRing.rstep retries s c) = RemoteRing.RDead ->
+  (c = RemoteRing.RBreak /\ (retries = false \/ RemoteRing.r_last s = None)) \/
+  (c = RemoteRing.RRedialOK /\ exists b, RemoteRing.r_last s = Some b /\
+     (Ring.c_wpos (RemoteRing.r_coll s) - b > initcap - Ring.c_gap (RemoteRing.r_coll s))%Z) \/
+  c = RemoteRing.RRedialForeign \/ c = RemoteRing.RGiveUp \/
+  (c = RemoteRing.RDeliver /\ exists spos lagged_at,
+     RemoteRing.r_mode s = RemoteRing.RStream spos [] true /\ (lagged_at - spos > initcap)%Z).
+Proof. exact RemoteRingProofs.remote_over_ring_death_cause. Qed.
+Print Assumptions C13_over_ring_death_cause.
